@@ -205,6 +205,10 @@ def dec_tv(tv):
         return False, U("false")
     if tg == "int":
         return tv["n"], U("int", tv["n"])
+    if tg == "float":                      # an integral float (0.0, 1.0): truth value only
+        return float(tv["n"]), U("float", tv["n"])
+    if tg == "elist":
+        return [], U("elist")
     if tg == "str":
         return tv["s"], U("str", tv.get("n", 0), s=tv["s"])
     if tg == "td":
@@ -598,7 +602,8 @@ CC_KEYS = ["max-age", "no-cache", "x-ext", "private", "public"]
 CC_VALS = [None, "3", "", "0", "x y", "a,b", 'q"t', "abc"]
 TVS = [{"tg": "none"}, {"tg": "true"}, {"tg": "false"}, {"tg": "int", "n": 0}, {"tg": "str", "s": ""},
        {"tg": "int", "n": 3600}, {"tg": "str", "s": "0"}, {"tg": "int", "n": 7}, {"tg": "str", "s": "12"},
-       {"tg": "str", "s": "abc"}, {"tg": "str", "s": "x y"}, {"tg": "str", "s": "007"}]
+       {"tg": "str", "s": "abc"}, {"tg": "str", "s": "x y"}, {"tg": "str", "s": "007"},
+       {"tg": "float", "n": 0}, {"tg": "elist"}, {"tg": "int", "n": 1}, {"tg": "float", "n": 1}]
 CSP_VALS = ["'self'", "", "'self' https://a.example", "*", "'none'", "https://cdn.example/x y"]
 WA_TYPES = ["basic", "digest", "bearer", "negotiate", "x-custom"]
 WA_KEYS = ["realm", "nonce", "qop", "charset", "error", "scope"]
@@ -637,6 +642,79 @@ def alias_ops(kind, small=False):
                {"op": "type_self"}, {"op": "token_self"}]
     else:
         out = []
+    return out
+
+
+# a populated header per family and mutations of a view read from it that do NOT change the view's value
+NOOP_SEED = {"set": "Cookie, Accept", "cc": "max-age=3, no-cache, public", "csp": "default-src 'self'; img-src *",
+             "mtp": "text/html; charset=utf-8", "cr": "bytes 0-9/100", "wa": 'Basic realm="x"'}
+
+
+def noop_ops(kind, empty=False):
+    """same-value mutations of a view holding NOOP_SEED[kind] (empty=True: of a view read while the header was absent)"""
+    if kind == "set":
+        if empty:
+            return [{"op": "clear"}, {"op": "update", "xs": []}, {"op": "update_self"}, {"op": "discard", "x": "Cookie"}]
+        return [{"op": "add", "x": "cookie"}, {"op": "add", "x": "Accept"}, {"op": "update", "xs": ["Cookie"]}, {"op": "update", "xs": []},
+                {"op": "update_self"}, {"op": "ior", "xs": []}, {"op": "setitem_self", "n": 0}, {"op": "setitem_self", "n": -1},
+                {"op": "setitem", "n": 0, "x": "Cookie"}, {"op": "discard", "x": "X-Absent"}]
+    if kind == "cc":
+        if empty:
+            return [{"op": "clear"}, {"op": "update", "ps": [], "form": "none"}, {"op": "ior", "ps": [], "form": "pairs"},
+                    {"op": "cc_set", "tag": "max_age", "tv": {"tg": "none"}}, {"op": "cc_set", "tag": "public", "tv": {"tg": "false"}}]
+        return [{"op": "cc_self", "tag": "max_age"}, {"op": "cc_self", "tag": "no_cache"}, {"op": "cc_self", "tag": "public"},
+                {"op": "cc_set", "tag": "max_age", "tv": {"tg": "int", "n": 3}}, {"op": "cc_set", "tag": "max_age", "tv": {"tg": "str", "s": "3"}},
+                {"op": "cc_set", "tag": "no_cache", "tv": {"tg": "true"}}, {"op": "cc_set", "tag": "public", "tv": {"tg": "true"}},
+                {"op": "cc_set", "tag": "public", "tv": {"tg": "int", "n": 1}},
+                {"op": "item_self", "x": "max-age"}, {"op": "setitem", "x": "max-age", "y": "3"}, {"op": "setitem", "x": "public", "y": None},
+                {"op": "update", "ps": [], "form": "none"}, {"op": "update", "ps": [], "form": "mapping"}, {"op": "update", "ps": [["max-age", "3"]]},
+                {"op": "ior", "ps": [], "form": "mapping"}, {"op": "update_self"}, {"op": "ior_self"},
+                {"op": "cc_set", "tag": "private", "tv": {"tg": "none"}}, {"op": "setdefault", "x": "max-age", "y": "9"}]
+    if kind == "csp":
+        if empty:
+            return [{"op": "clear"}, {"op": "update", "ps": [], "form": "none"}, {"op": "csp_set", "tag": "default_src", "y": None}]
+        return [{"op": "csp_self", "tag": "default_src"}, {"op": "csp_self", "tag": "img_src"}, {"op": "csp_set", "tag": "default_src", "y": "'self'"},
+                {"op": "item_self", "x": "img-src"}, {"op": "setitem", "x": "img-src", "y": "*"}, {"op": "update", "ps": [], "form": "none"},
+                {"op": "update", "ps": [["default-src", "'self'"]], "form": "mapping"}, {"op": "ior", "ps": [], "form": "mapping"},
+                {"op": "update_self"}, {"op": "ior_self"}, {"op": "csp_set", "tag": "sandbox", "y": None}]
+    if kind == "mtp":
+        return [{"op": "item_self", "x": "charset"}, {"op": "setitem", "x": "charset", "y": "utf-8"}, {"op": "update", "ps": [], "form": "none"},
+                {"op": "update", "ps": [["charset", "utf-8"]], "form": "mapping"}, {"op": "ior", "ps": [], "form": "pairs"},
+                {"op": "update_self"}, {"op": "ior_self"}, {"op": "setdefault", "x": "charset", "y": "z"}]
+    if kind == "cr":
+        if empty:
+            return [{"op": "unset"}, {"op": "set_units", "y": None}, {"op": "attr_self", "tag": "units"}, {"op": "attr_self", "tag": "length"},
+                    {"op": "set_self"}, {"op": "set_length", "m": [None, None, None]}]
+        return [{"op": "attr_self", "tag": g} for g in ("units", "start", "stop", "length")] + [
+            {"op": "set_self"}, {"op": "set", "m": [0, 10, 100], "y": "bytes"}, {"op": "set_units", "y": "bytes"},
+            {"op": "set_start", "m": [0, None, None]}, {"op": "set_stop", "m": [10, None, None]}, {"op": "set_length", "m": [100, None, None]}]
+    if kind == "wa":
+        return [{"op": "type_self"}, {"op": "token_self"}, {"op": "set_type", "x": "basic"}, {"op": "set_token", "y": None},
+                {"op": "alias_params"}, {"op": "params_ior", "ps": []}, {"op": "set_params", "ps": [["realm", "x"]]},
+                {"op": "setitem", "x": "realm", "y": "x"}, {"op": "setattr", "x": "realm", "y": "x"}, {"op": "setitem", "x": "nonce", "y": None},
+                {"op": "p_setitem", "x": "realm", "y": "x"}, {"op": "p_update", "ps": [], "form": "none"}, {"op": "p_ior", "ps": [], "form": "mapping"},
+                {"op": "p_update", "kw": [["realm", "x"]], "form": "kwargs"}, {"op": "delitem", "x": "nonce"}, {"op": "p_setdefault", "x": "realm", "y": "q"}]
+    return []
+
+
+def behind_edits(prop):
+    """ways the header changes behind a held view (slot 1): direct assignment / deletion of the header, whole-property
+    assignment, mutation through a second view (slot 2)"""
+    kind, _ = VIEWS[prop]
+    alt = {"set": "Origin", "cc": "no-store", "csp": "sandbox allow-forms", "mtp": "application/json; q=1", "cr": "bytes 5-9/*",
+           "wa": "Bearer abc123"}[kind]
+    out = [[{"op": "direct_edit", "prop": prop, "y": alt}], [{"op": "direct_edit", "prop": prop, "y": None}]]
+    for o in prop_ops(prop):
+        if o["op"] in ("assign", "del_prop") and not o.get("vw") and o.get("tag") in (None, "none", "text", "list", "value", "mt"):
+            if o.get("tag") == "text" and o.get("x") == "":
+                continue
+            out.append([o])
+    second = {"set": {"op": "add", "x": "X-Second"}, "cc": {"op": "cc_set", "tag": "s_maxage", "tv": {"tg": "int", "n": 0}},
+              "csp": {"op": "csp_set", "tag": "script_src", "y": "'none'"}, "mtp": {"op": "setitem", "x": "boundary", "y": "b"},
+              "cr": {"op": "set", "m": [1, 2, 3], "y": "bytes"}, "wa": {"op": "setitem", "x": "nonce", "y": "n"}}[kind]
+    g2 = {"op": "get_view", "prop": prop, "vw": 2}
+    out.append([g2, dict(second, vw=2)])
+    out.append([g2, dict({"op": "clear"} if kind in ("set", "cc", "csp") else second, vw=2), dict(second, vw=2)])
     return out
 
 
